@@ -28,7 +28,8 @@ Record shapes : Type := mkshapes {
   sh_wrapped : rkind -> bool;      (* does the wrapper method making this request carry @tries? *)
   sh_get_fail_ok : bool;           (* get_color's fail value is [-1]*4 (unpackable) *)
   sh_matrix_checked : bool;        (* Machine._color_matrix_light tests isinstance(light, MatrixLight) *)
-  sh_mz_guarded : bool             (* MultizoneLight.__init__ survives get_zone_colors() = None *)
+  sh_mz_guarded : bool;            (* MultizoneLight.__init__ survives get_zone_colors() = None *)
+  sh_size_guarded : bool           (* Machine._matrix / _color_matrix_light skip a matrix light of unknown size *)
 }.
 
 Definition wrapped_now (k : rkind) : bool :=
@@ -37,22 +38,30 @@ Definition wrapped_now (k : rkind) : bool :=
   | KGetPower => wrapped_get_power | KSetPower => wrapped_set_power
   | KGetZones => wrapped_get_zone_colors | KSetZones => wrapped_set_zone_colors
   | KGetChain => wrapped_get_size | KSetTile => wrapped_set_matrix | KGetTile => wrapped_get_matrix
-  | _ => false      (* LifxLAN calls and the identity getters used by the constructors are never retried *)
+  | KLanSetColorAll => wrapped_set_color_all | KLanSetPowerAll => wrapped_set_power_all   (* LifxLanApi *)
+  | _ => false      (* LifxLAN.get_lights and the identity getters used by the constructors are never retried *)
   end.
 
 (* what the source says now *)
 Definition current : shapes :=
   mkshapes MAX_TRIES wrapped_now get_color_fail_minus_ones
-           shape_matrix_light_checked shape_mz_init_guarded.
+           shape_matrix_light_checked shape_mz_init_guarded shape_matrix_size_guarded.
 
 (* the repaired shape and the pinned one, as constants (for the necessity theorems) *)
 Definition wrapped_all (k : rkind) : bool :=
   match k with
   | KGetColor | KSetColor | KGetPower | KSetPower | KGetZones | KSetZones | KGetChain | KSetTile | KGetTile => true
+  | KLanSetColorAll | KLanSetPowerAll => true
   | _ => false
   end.
-Definition repaired : shapes := mkshapes 3 wrapped_all true true true.
-Definition pinned : shapes := mkshapes 3 wrapped_all true false false.
+(* the pinned tree: only the methods of the light wrappers are retried *)
+Definition wrapped_devices (k : rkind) : bool :=
+  match k with
+  | KGetColor | KSetColor | KGetPower | KSetPower | KGetZones | KSetZones | KGetChain | KSetTile | KGetTile => true
+  | _ => false
+  end.
+Definition repaired : shapes := mkshapes 3 wrapped_all true true true true.
+Definition pinned : shapes := mkshapes 3 wrapped_devices true false false false.
 
 (* ---------- population, directory ---------- *)
 
@@ -121,7 +130,9 @@ Definition taint (st : state) (d : dev) : state :=
 Definition soil (st : state) : state :=
   mkst (s_plan st) (s_regs st) (s_colors st) (s_tainted st) true.
 
-Definition tainted (st : state) (d : dev) : bool := existsb (Z.eqb d) (s_tainted st).
+(* an abandoned broadcast leaves every light in doubt *)
+Definition tainted (st : state) (d : dev) : bool :=
+  existsb (Z.eqb d) (s_tainted st) || existsb (Z.eqb lan) (s_tainted st).
 
 Definition init_state (p : plan) (regs : list Z) (colors : dev -> list Z) : state :=
   mkst p regs colors [] false.
@@ -267,7 +278,13 @@ Definition step (dir : directory) (st : state) (c : cmd) : outcome3 :=
                   | None => Some (255, 255)
                   end in
       match size with
-      | None => (st, Abort AbSize, [])
+      | None =>
+          (* a matrix light whose size was never learned (D48): with the guard it is staged on
+             the 255 x 255 scratch matrix and nothing is transmitted *)
+          if sh_size_guarded sh then
+            if negb (rect_ok (span rows 255) (span cols 255) 255 255) then (st, Abort AbIndex, [])
+            else (st, Continue, [])
+          else (st, Abort AbSize, [])
       | Some (h, wd) =>
           let r := span rows h in
           let cl := span cols wd in
@@ -333,7 +350,7 @@ Definition idle (dir : directory) (c : cmd) : bool :=
   | CMatrix n _ _ _ =>
       match find_light dir n with
       | None => true
-      | Some w => match w_kind w with WMatrix _ => false | _ => true end
+      | Some w => match w_kind w with WMatrix (Some _) => false | _ => true end   (* size unknown: skipped *)
       end
   | CGet n =>
       match find_light dir n with
